@@ -199,7 +199,7 @@ func suiteC11(r *Run) {
 		ok   bool
 	}
 	hdrs := []hdrCase{{"none", nil, true}, {"plain", map[string]string{"X-K": "v"}, true}, {"goodbin", map[string]string{"X-K-Bin": "AAEC"}, true},
-		{"badbin", map[string]string{"X-K-Bin": "!!!not base64"}, false}, {"badtimeout", map[string]string{"GRPC-Timeout": "zzz"}, true}, {"timeout", map[string]string{"GRPC-Timeout": "5S"}, true},
+		{"badbin", map[string]string{"X-K-Bin": "!!!not base64"}, false}, {"badtimeout", map[string]string{"GRPC-Timeout": "zzz"}, true}, {"emptytimeout", map[string]string{"GRPC-Timeout": ""}, true}, {"timeout", map[string]string{"GRPC-Timeout": "5S"}, true},
 		{"badbin-pad", map[string]string{"K-Bin": "AAE"}, false}}
 
 	n := r.Budget(700, 30000)
